@@ -41,6 +41,10 @@ pub struct Case {
     pub writers: Vec<Vec<W>>,
     pub subs: Vec<Vec<S>>,
     pub schedule: Vec<u16>,
+    /// the subscribers spell the key with a CR in front of it in watch / unwatch (nun-db drops line breaks from key names:
+    /// the same text must name the same key in every command)
+    #[serde(default)]
+    pub cr_spelling: bool,
 }
 
 fn w_strategy() -> impl Strategy<Value = W> {
@@ -69,7 +73,7 @@ pub fn case_strategy() -> impl Strategy<Value = Case> {
         prop::collection::vec(prop::collection::vec(s_strategy(), 1..5), 1..3),
         prop::collection::vec(prop_oneof![3 => Just(0u16), 2 => any::<u16>()], 0..60),
     )
-        .prop_map(|(writers, subs, schedule)| Case { writers, subs, schedule })
+        .prop_map(|(writers, subs, schedule)| Case { writers, subs, schedule, cr_spelling: false }).prop_flat_map(|c| prop::bool::weighted(0.15).prop_map(move |cr| Case { cr_spelling: cr, ..c.clone() }))
 }
 
 #[derive(Clone, Debug)]
@@ -161,6 +165,7 @@ pub fn run_case(ctx: &Ctx, case: &Case) -> Result<Outcome, String> {
     for prog in case.subs.iter() {
         let prog = prog.clone();
         let dbs = node.dbs.clone();
+        let cr: &'static str = if case.cr_spelling { "\r" } else { "" };
         let mut s = Session::new();
         s.send(&node, "use-db d tok");
         tasks.push(Box::new(move |t: &sched::TaskCtx| {
@@ -185,13 +190,13 @@ pub fn run_case(ctx: &Ctx, case: &Case) -> Result<Outcome, String> {
                 match op {
                     S::Watch { k } => {
                         // (a second watch of a key the session already watches changes nothing: still ONE notification per mutation)
-                        nundb::process_request::process_request(&format!("watch {}", KEYS[*k]), &dbs, &mut s.client);
+                        nundb::process_request::process_request(&format!("watch {}{}", cr, KEYS[*k]), &dbs, &mut s.client);
                         if !watching[*k] {
                             seen = dbs.map.read().unwrap().get("d").and_then(|d| d.map.read().unwrap().get(KEYS[*k]).map(|v| v.value.clone()));
                         }
                     }
                     S::Unwatch { k } => {
-                        nundb::process_request::process_request(&format!("unwatch {}", KEYS[*k]), &dbs, &mut s.client);
+                        nundb::process_request::process_request(&format!("unwatch {}{}", cr, KEYS[*k]), &dbs, &mut s.client);
                         watching[*k] = false;
                     }
                     S::UnwatchAll => {
@@ -436,7 +441,7 @@ fn bounded_family(len: usize) -> Vec<Case> {
     for sp in sub_progs.iter() {
         for wp in writer_progs.iter() {
             for s in scheds.iter() {
-                out.push(Case { writers: vec![wp.clone()], subs: vec![vec![S::Watch { k: 0 }], sp.clone()], schedule: s.clone() });
+                out.push(Case { writers: vec![wp.clone()], subs: vec![vec![S::Watch { k: 0 }], sp.clone()], schedule: s.clone(), cr_spelling: false });
             }
         }
     }
